@@ -216,6 +216,20 @@ CLAIMED = {
         "contract-based deductive verification: algebraic identity over the real density code + symbolic execution of the real kernels; sampler primitives trusted",
         "DESIGN.md §3 C13",
     ),
+    "C15": (
+        "other",
+        "Proved by symbolic execution of the REAL builder / model / node code on enumerated shapes (plus unnamed nodes, a shared input, a "
+        "pre-occupied automatic name): the model contains every recursive input exactly once, names non-empty and unique with given names "
+        "kept, outputs exact inverse of inputs, update order topological, all nodes bound to the model; duplicate node / variable names, "
+        "reserved names and cycles rejected; every guarded mutator (enumerated mechanically from the class bodies) raises RuntimeError and "
+        "changes nothing on a frozen node / variable, and a syntactic scan shows every public method or setter that stores into a structural "
+        "field carries the guard; pop + rebuild, copy_nodes_and_vars + rebuild and copy=True reproduce state and behaviour and are "
+        "independent; nodes of a dropped model can be rebuilt without stale outputs. One obligation (pop + rebuild with a seeded node) is "
+        "refuted on the unchanged tree = open known finding D8; save/load (dill) and deepcopy of whole models are bounded. Hence 'other'.",
+        "graph shapes enumerated; A-NX; A-PY deepcopy; S4/S4' weak references die with their model; D8 in known_findings.json.",
+        "contract-based deductive verification: symbolic execution of the real code on enumerated shapes + mechanical enumeration / syntactic scan of mutators; bounded native round trips",
+        "DESIGN.md §3 C15",
+    ),
 }
 
 NOT_APPLICABLE = {
